@@ -101,18 +101,24 @@ pub fn main(args: &[String]) {
             if !e && find(&bytes, &content[..64]) != !c {
                 mism.push(("plaintext-visibility".into(), "content visible/hidden unlike the layers announce".into()));
             }
-            // (the model's "right" is ANY recipient alone: the first one added and the last one added are both tried)
-            for ks in ["none", "right", "right_first", "wrong", "wrong_right"] {
+            // (the model's `only`: the private key of identity r alone opens iff r is among the recipients, however many
+            // add_public_keys calls brought them)
+            for ks in ["none", "right", "only0", "only1", "wrong", "wrong_right"] {
                 let mut rc = ArchiveReaderConfig::new();
                 match ks {
                     // recipients are keys 0 (always, when any) and 1 (when two or more were added): the last one is tried alone
                     "right" => { rc.add_private_keys(&[keys[usize::from(given >= 2)].0.clone()]); }
-                    "right_first" => { rc.add_private_keys(&[keys[0].0.clone()]); }
+                    "only0" => { rc.add_private_keys(&[keys[0].0.clone()]); }
+                    "only1" => { rc.add_private_keys(&[keys[1].0.clone()]); }
                     "wrong" => { rc.add_private_keys(&[keys[2].0.clone(), keys[3].0.clone()]); }
                     "wrong_right" => { rc.add_private_keys(&[keys[3].0.clone(), keys[0].0.clone()]); }
                     _ => {}
                 }
-                let want = gets(&b["read"], if ks == "right_first" { "right" } else { ks });
+                let want = match ks {
+                    "only0" => b["only"]["0"].as_str().unwrap(),
+                    "only1" => b["only"]["1"].as_str().unwrap(),
+                    _ => gets(&b["read"], ks),
+                };
                 match ArchiveReader::from_config(Cursor::new(bytes.clone()), rc) {
                     Ok(mut r) => {
                         if want != "ok" { return Err(("opens-without-recipient-key".into(), format!("key set {ks}"))); }
